@@ -269,40 +269,54 @@ def h_cond(size: int, head: bool, inm: int, ims: int, rng: int):
 
 
 # ----------------------------------------------------------------------------------------------
-# Arithmetic harness: the start/end arithmetic of StaticFileHandler.get and _get_content_range for
-# ALL integers (no bound on size/start/end).  _parse_request_range is replaced by a function that
-# returns the symbolic (start, end) pair in the shapes the real parser can produce:
+# Arithmetic harness: the start/end arithmetic of StaticFileHandler.get for UNBOUNDED requested positions
+# (first/last/suffix any non-negative int) and sizes 0..S.  _parse_request_range is replaced by a function that returns the symbolic
+# (start, end) pair in the shapes the real parser can produce:
 #   (s>=0, None)  (s>=0, e+1 with e>=0)  (-n, None) n>0  (None, 0)  (None, None)
-# and get_content records the (start, end) it is asked for instead of slicing.
+# Values are observed as INTEGERS (before str()): set_header is overridden to record the raw value,
+# _get_content_range is wrapped to record its arguments, get_content records its (start, end).
+# The rendering of _get_content_range itself is checked by h_content_range.
 
 class ArithStatic(MemStatic):
-    REQ = None
     LOG = None
+    RAW = None
+    CR = None
 
     @classmethod
     def get_content(cls, abspath, start=None, end=None):
         cls.LOG.append((start, end))
         return b""
 
+    def set_header(self, name, value):
+        if name == "Content-Length":
+            ArithStatic.RAW.append(value)
+            value = "0"
+        elif name == "Content-Range":
+            ArithStatic.CR = value        # header-character validation of str(unbounded int) forks per digit
+            value = "x"
+        super().set_header(name, value)
+
 
 def pre_arith(size: int, shape: int, x: int, y: int) -> bool:
-    return size >= 0 and 0 <= shape <= 4 and x >= 0 and y >= 0 and in_shard(shape)
+    return 0 <= size <= P.S and 0 <= shape <= 4 and x >= 0 and y >= 0 and in_shard(shape)
 
 
 @harness(
     pre=pre_arith,
-    quick=dict(timeout=120, reach_timeout=60),
-    thorough=dict(timeout=600),
+    quick=dict(S=6, timeout=120, reach_timeout=60),
+    thorough=dict(S=40, timeout=900),
     nshards=dict(quick=5, thorough=5),
     reach=["a206", "a416", "a200"],
-    units=["web.StaticFileHandler.get (range arithmetic block)", "httputil._get_content_range"],
+    units=["web.StaticFileHandler.get (range arithmetic block)"],
     stubs=["httputil._parse_request_range replaced by a function returning the symbolic (start,end) pair "
            "(shapes: first- / first-last / -suffix / -0 / empty) so that the integers are unbounded solver "
            "variables (the parser itself is covered by h_range)",
-           "get_content records its (start,end) arguments; body bytes not produced (covered by h_range)",
-           "Content-Length/Content-Range are rendered with str()/f-string of symbolic ints and compared "
-           "as strings with the reference rendering"],
-    outside=["non-int sizes"],
+           "integers observed before rendering: set_header('Content-Length', n) records n; set_header('Content-Range', s) "
+           "records s without the header-character regex (str of an unbounded int forks per digit); "
+           "httputil._get_content_range wrapped to record (start,end,total) (its rendering: h_content_range); "
+           "get_content records its (start,end) arguments"],
+    outside=["sizes above S (the 416 branch renders f'bytes */{size}', which makes CrossHair enumerate size); "
+             "first/last/suffix positions are unbounded"],
 )
 def h_arith(size: int, shape: int, x: int, y: int):
     if shape == 0:
@@ -316,8 +330,17 @@ def h_arith(size: int, shape: int, x: int, y: int):
     else:
         rr = (None, None); first, last, suffix = None, None, None
     ArithStatic.LOG = []
-    saved = httputil._parse_request_range
+    ArithStatic.RAW = []
+    ArithStatic.CR = None
+    crargs = []
+
+    def rec_cr(start, end, total):
+        crargs.append((start, end, total))
+        return "bytes 0-0/1"
+
+    saved = (httputil._parse_request_range, httputil._get_content_range)
     httputil._parse_request_range = lambda v: rr
+    httputil._get_content_range = rec_cr
     try:
         MemStatic.SIZE = size
         MemStatic._static_hashes = {}
@@ -329,10 +352,8 @@ def h_arith(size: int, shape: int, x: int, y: int):
             env.run_ready()
             assert t.done() and t.exception() is None
     finally:
-        httputil._parse_request_range = saved
+        httputil._parse_request_range, httputil._get_content_range = saved
     st = conn.status
-    cr = conn.header("Content-Range")
-    cl = conn.header("Content-Length")
     # reference selection
     if suffix is not None:
         if suffix == 0:
@@ -340,9 +361,7 @@ def h_arith(size: int, shape: int, x: int, y: int):
         elif size == 0:
             sel = "either"
         else:
-            a = size - suffix if suffix < size else 0
-            b = size - 1
-            sel = (a, b)
+            sel = (size - suffix if suffix < size else 0, size - 1)
     elif first is not None:
         if last is not None and last < first:
             sel = "either"
@@ -358,19 +377,49 @@ def h_arith(size: int, shape: int, x: int, y: int):
         a, b = sel
         assert 0 <= a <= b < size, "206 outside the file"
         assert not (a == 0 and b == size - 1), "206 for the whole file"
-        assert cr == f"bytes {a}-{b}/{size}", "Content-Range %r != bytes %d-%d/%d" % (cr, a, b, size)
-        assert cl == str(b - a + 1), "Content-Length %r != %d" % (cl, b - a + 1)
+        assert len(crargs) == 1
+        cs, ce, ct = crargs[0]
+        assert (cs or 0) == a and (ce or ct) - 1 == b and ct == size, "Content-Range arguments"
+        assert ArithStatic.RAW == [b - a + 1], "Content-Length != b-a+1"
         (gs, ge) = ArithStatic.LOG[0]
-        assert (gs or 0) == a and (size if ge is None else ge) == b + 1, "slice %r != [%d:%d]" % ((gs, ge), a, b + 1)
+        assert (gs or 0) == a and (size if ge is None else ge) == b + 1, "slice != [a:b+1]"
     elif st == 416:
         reached("a416")
-        assert sel is None or sel == "either", "416 for a satisfiable range %r" % (sel,)
-        assert cr == f"bytes */{size}" and cl == "0" and ArithStatic.LOG == []
+        assert sel is None or sel == "either", "416 for a satisfiable range"
+        assert ArithStatic.LOG == [] and crargs == []
+        cr = ArithStatic.CR
+        assert cr == f"bytes */{size}", "416 Content-Range"
     else:
         reached("a200")
-        assert st == 200 and cr is None
+        assert st == 200 and crargs == []
         assert sel == "either" or (sel is not None and sel[0] == 0 and sel[1] == size - 1), \
-            "range ignored although a proper sub-range %r was selected" % (sel,)
-        assert cl == str(size)
+            "range ignored although a proper sub-range was selected"
+        assert ArithStatic.RAW == [size]
         (gs, ge) = ArithStatic.LOG[0]
         assert (gs or 0) == 0 and (size if ge is None else ge) == size
+
+
+def pre_cr(start: int, end: int, total: int, sn: bool, en: bool) -> bool:
+    return 0 <= start <= P.M and 1 <= end <= P.M and 0 <= total <= P.M
+
+
+@harness(
+    pre=pre_cr,
+    quick=dict(M=6, timeout=120),
+    thorough=dict(M=16, timeout=900),
+    nshards=1,
+    reach=["cr_none_end"],
+    units=["httputil._get_content_range"],
+    stubs=["output parsed back with split/int by the harness"],
+    outside=["integers above M (the f-string rendering makes CrossHair enumerate the integers)"],
+)
+def h_content_range(start: int, end: int, total: int, sn: bool, en: bool):
+    s = None if sn else start
+    e = None if en else end
+    out = httputil._get_content_range(s, e, total)
+    if en:
+        reached("cr_none_end")
+    assert out.startswith("bytes ")
+    rng, _, tot = out[6:].partition("/")
+    a, _, b = rng.partition("-")
+    assert int(tot) == total and int(a) == (0 if sn else start) and int(b) == (total if en else end) - 1
